@@ -89,9 +89,9 @@ Proof. induction l as [|x r IH]; simpl; [lia | destruct (f x); lia]. Qed.
 
 Lemma countb_zero {A : Type} (f : A -> bool) (l : list A) : countb f l = 0 <-> forallb (fun x => negb (f x)) l = true.
 Proof.
-  induction l as [|x r IH]; simpl; [tauto|].
-  pose proof (countb_nonneg f r). destruct (f x); simpl.
-  - split; [lia | discriminate].
+  induction l as [|x r IH]; [simpl; tauto|]. cbn [countb forallb].
+  pose proof (countb_nonneg f r). destruct (f x); cbn [negb andb].
+  - split; [intros; exfalso; lia | discriminate].
   - rewrite <- IH. split; lia.
 Qed.
 
@@ -184,7 +184,7 @@ Lemma kr_bonds_graph g g' : kr_bonds g g' = true -> graph_of g = graph_of g'.
 Proof.
   unfold kr_bonds, graph_of. apply forallb2_map. intros x y E.
   apply andb_true_iff in E. destruct E as [E1 E2]. apply Z.eqb_eq in E1. apply nbl_step_keys in E2.
-  rewrite E1, E2. reflexivity.
+  f_equal; assumption.
 Qed.
 
 Lemma core_split g g' : kekule_rel_core g g' = true -> kr_atoms g g' = true /\ kr_bonds g g' = true /\ kr_classes g g' = true.
@@ -298,11 +298,11 @@ Qed.
 
 Lemma moved_le_count o o' : forall l l', 0 <= moved o o' l l' <= countb (ord_is o) l.
 Proof.
-  intros l. induction l as [|x r IH]; intros [|y s]; simpl.
+  intros l. induction l as [|x r IH]; intros [|y s]; cbn [moved countb].
   - lia.
   - lia.
   - pose proof (countb_nonneg (ord_is o) r). destruct (ord_is o x); lia.
-  - specialize (IH s). destruct (ord_is o x); simpl; [destruct (ord_is o' y)|]; lia.
+  - specialize (IH s). destruct (ord_is o x); cbn [andb]; [destruct (ord_is o' y)|]; lia.
 Qed.
 
 Lemma dbl_ok_le1 c nd : dbl_ok c nd = true -> 0 <= nd <= 1.
@@ -355,9 +355,9 @@ Proof.
   intros g g' N E. apply core_split in E. destruct E as [_ [Eb _]].
   apply no_arom_adj in N. unfold kr_bonds in Eb. unfold same_orders.
   revert Eb. apply forallb2_with_forallb with (p := fun x => forallb (fun p => negb (ord_is 4 p)) (snd x)); [|exact N].
-  intros x y P E. apply andb_true_iff in E. destruct E as [E1 E2]. rewrite E1. simpl.
+  intros x y P E. apply andb_true_iff in E. destruct E as [E1 E2]. apply andb_true_iff. split; [exact E1|].
   revert E2. unfold nbl_step. apply forallb2_with_forallb with (p := fun p => negb (ord_is 4 p)); [|exact P].
-  intros p q P4 E. apply andb_true_iff in E. destruct E as [Ek Es]. rewrite Ek. simpl.
+  intros p q P4 E. apply andb_true_iff in E. destruct E as [Ek Es]. apply andb_true_iff. split; [exact Ek|].
   unfold bond_step in Es. apply andb_true_iff in Es. destruct Es as [_ Es].
   unfold ord_is in P4. destruct (b_ord (snd p) =? 4); [discriminate|].
   rewrite Z.eqb_sym. exact Es.
@@ -399,7 +399,7 @@ Qed.
 
 Lemma scan_ord4_nil g : no_arom g = true -> scan_ord g 4 = [].
 Proof.
-  unfold no_arom, scan_ord. induction (m_adj g) as [|x r IH]; simpl; auto.
+  unfold no_arom, scan_ord. induction (m_adj g) as [|[n l] r IH]; simpl; auto.
   intros H. apply andb_true_iff in H. destruct H as [H1 H2]. apply Z.eqb_eq in H1.
   unfold arom_deg in H1. rewrite (filter_nil_countb _ _ H1). simpl. auto.
 Qed.
@@ -418,7 +418,7 @@ Qed.
    ------------------------------------------------------------------------------------------------ *)
 Lemma keys_set_ord_nbl l m o : keys (set_ord_nbl l m o) = keys l.
 Proof.
-  unfold keys, set_ord_nbl. rewrite map_map. apply map_ext. intros mb. destruct (fst mb =? m); reflexivity.
+  unfold keys, set_ord_nbl. rewrite map_map. apply map_ext. intros [k b]. simpl. destruct (k =? m); reflexivity.
 Qed.
 
 Lemma set_order_core g n m o : core_of (set_order g n m o) = core_of g.
@@ -426,8 +426,8 @@ Proof. reflexivity. Qed.
 
 Lemma set_order_graph g n m o : graph_of (set_order g n m o) = graph_of g.
 Proof.
-  unfold graph_of, set_order. simpl. rewrite map_map. apply map_ext. intros nl.
-  destruct (fst nl =? n); [|destruct (fst nl =? m)]; simpl; try rewrite keys_set_ord_nbl; reflexivity.
+  unfold graph_of, set_order. simpl. rewrite map_map. apply map_ext. intros [k l]. simpl.
+  destruct (k =? n); [|destruct (k =? m)]; simpl; try rewrite keys_set_ord_nbl; reflexivity.
 Qed.
 
 Lemma apply_form_core form : forall g, core_of (apply_form g form) = core_of g /\ graph_of (apply_form g form) = graph_of g.
@@ -438,8 +438,8 @@ Qed.
 
 Lemma set_h_core g n h : core_of (set_h g n h) = core_of g /\ graph_of (set_h g n h) = graph_of g.
 Proof.
-  split; [|reflexivity]. unfold core_of, set_h. simpl. rewrite map_map. apply map_ext. intros na.
-  destruct (fst na =? n); reflexivity.
+  split; [|reflexivity]. unfold core_of, set_h. simpl. rewrite map_map. apply map_ext. intros [k a]. simpl.
+  destruct (k =? n); reflexivity.
 Qed.
 
 Lemma set_h_loop_core (calc : mol -> Z -> option Z) ns : forall g,
@@ -468,7 +468,9 @@ Proof.
         destruct (set_h_loop_core calc (form_atoms (x :: form))
                     (apply_form (apply_form g (map (fun nm => (fst nm, snd nm, 1)) (r_singled p))) (x :: form))) as [A B].
         destruct (apply_form_core (x :: form) (apply_form g (map (fun nm => (fst nm, snd nm, 1)) (r_singled p)))) as [C D].
-        destruct P1 as [P1 P2]. rewrite A, B, C, D, P1, P2. split; reflexivity.
+        destruct P1 as [P1 P2]. split.
+        * etransitivity; [exact A|]. etransitivity; [exact C|exact P1].
+        * etransitivity; [exact B|]. etransitivity; [exact D|exact P2].
       + injection E as E _. subst g'. exact P1. }
   destruct CG as [C G]. repeat split; auto.
   - apply core_ids, C.
@@ -495,16 +497,16 @@ Proof.
   assert (K : keys (snd x) = keys (snd y)).
   { revert E2. unfold th_nbl_step, keys. apply forallb2_map. intros p q E.
     apply andb_true_iff in E. destruct E as [E _]. apply Z.eqb_eq in E. exact E. }
-  rewrite E1, K. reflexivity.
+  f_equal; assumption.
 Qed.
 
-Theorem thiele_rel_preserves : forall g g', thiele_rel_noh g g' = true ->
+Theorem thiele_rel_preserves : forall g g', thiele_rel_core g g' = true ->
   ids g = ids g' /\ core_of g = core_of g' /\ graph_of g = graph_of g' /\
   total_charge g = total_charge g' /\ radical_count g = radical_count g' /\
   (forall z, element_count z g = element_count z g') /\
   (tr_h g g' = true -> map (fun x => a_h (snd x)) (m_atoms g) = map (fun x => a_h (snd x)) (m_atoms g')).
 Proof.
-  intros g g' E. unfold thiele_rel_noh in E. apply andb_true_iff in E. destruct E as [E _].
+  intros g g' E. unfold thiele_rel_core in E. apply andb_true_iff in E. destruct E as [E _].
   apply andb_true_iff in E. destruct E as [Ea Eb].
   pose proof (tr_atoms_core _ _ Ea) as C. repeat split.
   - apply core_ids, C.
@@ -525,11 +527,11 @@ Proof.
   rewrite (IH s), andb_comm. reflexivity.
 Qed.
 
-Theorem kekule_thiele_inverse : forall g k, kekule_rel_core g k = true -> thiele_rel_noh k g = true.
+Theorem kekule_thiele_inverse : forall g k, kekule_rel_core g k = true -> thiele_rel_core k g = true.
 Proof.
   intros g k E. pose proof (kekule_rel_valid _ _ E) as [_ [L _]].
   apply core_split in E. destruct E as [Ea [Eb _]].
-  unfold thiele_rel_noh. apply andb_true_iff. split; [apply andb_true_iff; split|].
+  unfold thiele_rel_core. apply andb_true_iff. split; [apply andb_true_iff; split|].
   - revert Ea. unfold kr_atoms, tr_atoms. apply forallb2_swap. intros x y E.
     apply andb_true_iff in E. destruct E as [E E3]. apply andb_true_iff in E. destruct E as [E1 E2].
     apply Z.eqb_eq in E1. apply option_eqb_bool_eq in E3.
@@ -546,3 +548,244 @@ Proof.
   - revert L. unfold tr_doubles. apply forallb2_swap. intros x y E.
     unfold old_doubles. unfold new_doubles in E. rewrite moved_swap. exact E.
 Qed.
+
+(* ------------------------------------------------------------------------------------------------
+   6. the atom classifier of __prepare_rings: equal, for ALL integers, to a table over finitely many classes
+   ------------------------------------------------------------------------------------------------ *)
+Inductive eclass := E5 | E6 | E7 | E8 | E15 | E16 | E33 | E34 | E52 | EOther.
+Inductive cclass := Cm1 | C0 | C1 | COther.
+Inductive nclass := N2 | N3 | N4 | NOther.
+Inductive hclass := HNone | H0 | H1 | HOther.
+
+Definition eclass_of (num : Z) : eclass :=
+  if num =? 5 then E5 else if num =? 6 then E6 else if num =? 7 then E7 else if num =? 8 then E8
+  else if num =? 15 then E15 else if num =? 16 then E16 else if num =? 33 then E33 else if num =? 34 then E34
+  else if num =? 52 then E52 else EOther.
+Definition cclass_of (chg : Z) : cclass := if chg =? -1 then Cm1 else if chg =? 0 then C0 else if chg =? 1 then C1 else COther.
+Definition nclass_of (nb : Z) : nclass := if nb =? 2 then N2 else if nb =? 3 then N3 else if nb =? 4 then N4 else NOther.
+Definition hclass_of (h : option Z) : hclass :=
+  match h with None => HNone | Some hh => if hh =? 0 then H0 else if hh =? 1 then H1 else HOther end.
+
+Definition rep_e (e : eclass) : Z :=
+  match e with E5 => 5 | E6 => 6 | E7 => 7 | E8 => 8 | E15 => 15 | E16 => 16 | E33 => 33 | E34 => 34 | E52 => 52 | EOther => 1 end.
+Definition rep_c (c : cclass) : Z := match c with Cm1 => -1 | C0 => 0 | C1 => 1 | COther => 2 end.
+Definition rep_n (n : nclass) : Z := match n with N2 => 2 | N3 => 3 | N4 => 4 | NOther => 0 end.
+Definition rep_h (h : hclass) : option Z := match h with HNone => None | H0 => Some 0 | H1 => Some 1 | HOther => Some 2 end.
+
+(* the table, written from the comments of the Python function: P = "pyrrole or pyridine" (goes to `pyrroles`),
+   D = takes no double bond inside the ring (goes to `double_bonded`), K = plain ring atom (needs one double bond)
+   unless it already is in double_bonded, X = InvalidAromaticRing *)
+Definition tP (indb : bool) : pyres (bool * bool) := Ok (true, indb).
+Definition tD : pyres (bool * bool) := Ok (false, true).
+Definition tK (indb : bool) : pyres (bool * bool) := Ok (false, indb).
+Definition tX : pyres (bool * bool) := Err OtherError.
+Definition t_by_h (h : hclass) (indb : bool) : pyres (bool * bool) :=
+  match h with HNone => tP indb | H1 => tD | H0 => tK indb | HOther => tX end.
+
+Definition class_table (e : eclass) (c : cclass) (rad : bool) (n : nclass) (h : hclass) (indb : bool) : pyres (bool * bool) :=
+  match e with
+  | E6 =>                                                            (* carbon *)
+      match c, rad, n with
+      | C0, _, (N2 | N3) => tK indb
+      | (Cm1 | C1), true, N2 => tD
+      | (Cm1 | C1), false, N3 => tD
+      | (Cm1 | C1), false, N2 => tP indb
+      | _, _, _ => tX
+      end
+  | E7 | E15 | E33 =>                                                (* N, P, As *)
+      match c, rad, n with
+      | C0, true, N2 => tD
+      | C0, false, N3 => match e with E7 => tD | _ => tP indb end
+      | C0, false, N2 => t_by_h h indb
+      | C0, false, N4 => match e with E7 => tX | _ => tK indb end
+      | Cm1, false, N2 => tD
+      | C1, true, N2 => tK indb
+      | C1, false, N2 => tP indb
+      | C1, false, N3 => tK indb
+      | _, _, _ => tX
+      end
+  | E8 =>                                                            (* O *)
+      match n, c, rad with
+      | N2, C0, false => tD
+      | N2, C1, _ => Ok (false, rad || indb)
+      | _, _, _ => tX
+      end
+  | E16 | E34 | E52 =>                                               (* S, Se, Te *)
+      if indb then tD else
+      match n, rad, c with
+      | N2, true, C1 => tD
+      | N2, false, C0 => tD
+      | N2, false, C1 => Ok (false, false)
+      | N3, true, C0 => tD
+      | N3, false, C1 => tD
+      | N3, false, C0 => Ok (false, false)
+      | _, _, _ => tX
+      end
+  | E5 =>                                                            (* B *)
+      match c, n, rad with
+      | C0, N2, true => tD
+      | C0, N2, false => t_by_h h indb
+      | C0, _, false => tD
+      | C1, N2, false => tD
+      | Cm1, N2, false => tP indb
+      | Cm1, N2, true => tK indb
+      | Cm1, _, true => tD
+      | Cm1, _, false => tP indb
+      | _, _, _ => tX
+      end
+  | EOther => tX
+  end.
+
+Lemma classify_norm_e num chg rad nb h indb :
+  classify_atom num chg rad nb h indb = classify_atom (rep_e (eclass_of num)) chg rad nb h indb.
+Proof.
+  unfold eclass_of.
+  destruct (num =? 5) eqn:A5; [apply Z.eqb_eq in A5; subst; reflexivity|].
+  destruct (num =? 6) eqn:A6; [apply Z.eqb_eq in A6; subst; reflexivity|].
+  destruct (num =? 7) eqn:A7; [apply Z.eqb_eq in A7; subst; reflexivity|].
+  destruct (num =? 8) eqn:A8; [apply Z.eqb_eq in A8; subst; reflexivity|].
+  destruct (num =? 15) eqn:A15; [apply Z.eqb_eq in A15; subst; reflexivity|].
+  destruct (num =? 16) eqn:A16; [apply Z.eqb_eq in A16; subst; reflexivity|].
+  destruct (num =? 33) eqn:A33; [apply Z.eqb_eq in A33; subst; reflexivity|].
+  destruct (num =? 34) eqn:A34; [apply Z.eqb_eq in A34; subst; reflexivity|].
+  destruct (num =? 52) eqn:A52; [apply Z.eqb_eq in A52; subst; reflexivity|].
+  unfold classify_atom, is_NPAs, is_SSeTe. rewrite A5, A6, A7, A8, A15, A16, A33, A34, A52. reflexivity.
+Qed.
+
+Lemma classify_norm_c num chg rad nb h indb :
+  classify_atom num chg rad nb h indb = classify_atom num (rep_c (cclass_of chg)) rad nb h indb.
+Proof.
+  unfold cclass_of.
+  destruct (chg =? -1) eqn:A; [apply Z.eqb_eq in A; subst; reflexivity|].
+  destruct (chg =? 0) eqn:B; [apply Z.eqb_eq in B; subst; reflexivity|].
+  destruct (chg =? 1) eqn:C; [apply Z.eqb_eq in C; subst; reflexivity|].
+  unfold classify_atom. rewrite A, B, C. reflexivity.
+Qed.
+
+Lemma classify_norm_n num chg rad nb h indb :
+  classify_atom num chg rad nb h indb = classify_atom num chg rad (rep_n (nclass_of nb)) h indb.
+Proof.
+  unfold nclass_of.
+  destruct (nb =? 2) eqn:A; [apply Z.eqb_eq in A; subst; reflexivity|].
+  destruct (nb =? 3) eqn:B; [apply Z.eqb_eq in B; subst; reflexivity|].
+  destruct (nb =? 4) eqn:C; [apply Z.eqb_eq in C; subst; reflexivity|].
+  unfold classify_atom. rewrite A, B, C. reflexivity.
+Qed.
+
+Lemma by_hydrogens_norm h indb : by_hydrogens h indb = by_hydrogens (rep_h (hclass_of h)) indb.
+Proof.
+  destruct h as [hh|]; [|reflexivity]. unfold hclass_of.
+  destruct (hh =? 0) eqn:A; [apply Z.eqb_eq in A; subst; reflexivity|].
+  destruct (hh =? 1) eqn:B; [apply Z.eqb_eq in B; subst; reflexivity|].
+  unfold by_hydrogens. rewrite A, B. reflexivity.
+Qed.
+
+Lemma classify_norm_h num chg rad nb h indb :
+  classify_atom num chg rad nb h indb = classify_atom num chg rad nb (rep_h (hclass_of h)) indb.
+Proof. unfold classify_atom. rewrite (by_hydrogens_norm h indb). reflexivity. Qed.
+
+Lemma class_table_reps e c rad n h indb :
+  classify_atom (rep_e e) (rep_c c) rad (rep_n n) (rep_h h) indb = class_table e c rad n h indb.
+Proof. destruct e, c, rad, n, h, indb; reflexivity. Qed.
+
+Theorem prepare_rings_classes : forall num chg rad nb h indb,
+  classify_atom num chg rad nb h indb =
+  class_table (eclass_of num) (cclass_of chg) rad (nclass_of nb) (hclass_of h) indb.
+Proof.
+  intros. rewrite classify_norm_e, classify_norm_c, classify_norm_n, classify_norm_h. apply class_table_reps.
+Qed.
+
+(* total: the only exception is InvalidAromaticRing; raised for every element outside B C N O P S As Se Te *)
+Theorem classify_total : forall num chg rad nb h indb,
+  match classify_atom num chg rad nb h indb with Ok _ => True | Err e => e = OtherError end.
+Proof.
+  intros. rewrite prepare_rings_classes.
+  destruct (eclass_of num), (cclass_of chg), rad, (nclass_of nb), (hclass_of h), indb; simpl; auto.
+Qed.
+
+Theorem classify_elements : forall num chg rad nb h indb,
+  ~ In num [5; 6; 7; 8; 15; 16; 33; 34; 52] -> classify_atom num chg rad nb h indb = Err OtherError.
+Proof.
+  intros num chg rad nb h indb N. rewrite prepare_rings_classes.
+  assert (E : eclass_of num = EOther).
+  { unfold eclass_of.
+    repeat match goal with
+    | |- context [num =? ?c] => let H := fresh "H" in destruct (num =? c) eqn:H; [exfalso; apply N; apply Z.eqb_eq in H; subst; simpl; tauto|]
+    end. reflexivity. }
+  rewrite E. reflexivity.
+Qed.
+
+(* every listed element has accepted states: the table is not trivially X *)
+Theorem classify_accepts_each_element :
+  forallb (fun num => existsb (fun chg => existsb (fun nb =>
+     match classify_atom num chg false nb None false with Ok _ => true | Err _ => false end) [2; 3; 4]) [-1; 0; 1])
+    [5; 6; 7; 8; 15; 16; 33; 34; 52] = true.
+Proof. vm_compute. reflexivity. Qed.
+
+(* ------------------------------------------------------------------------------------------------
+   7. the statements are not vacuous: concrete rings accepted and rejected by the checkers, the driver on benzene
+   ------------------------------------------------------------------------------------------------ *)
+(* atoms 1..n in a cycle; bond i joins atom i and atom i+1 (bond n closes the ring) *)
+Definition ring (ats : list atom) (os : list Z) : mol :=
+  let n := Z.of_nat (List.length ats) in
+  mkMol (combine (zrange 1 (n + 1)) ats)
+        (map (fun i => (i, [(if i =? 1 then n else i - 1, mkBond (znth os (if i =? 1 then n - 1 else i - 2) 0) None);
+                            (if i =? n then 1 else i + 1, mkBond (znth os (i - 1) 0) None)])) (zrange 1 (n + 1))).
+Definition cH : atom := mkAtom 6 None 0 false (Some 1) None.
+Definition nH : atom := mkAtom 7 None 0 false (Some 1) None.
+Definition n_ (h : option Z) : atom := mkAtom 7 None 0 false h None.
+Definition benzene_a := ring [cH; cH; cH; cH; cH; cH] [4; 4; 4; 4; 4; 4].
+Definition benzene_k := ring [cH; cH; cH; cH; cH; cH] [2; 1; 2; 1; 2; 1].
+Definition pyrrole_a := ring [nH; cH; cH; cH; cH] [4; 4; 4; 4; 4].
+Definition pyrrole_k := ring [nH; cH; cH; cH; cH] [1; 2; 1; 2; 1].
+Definition pyridine_a := ring [n_ None; cH; cH; cH; cH; cH] [4; 4; 4; 4; 4; 4].
+Definition pyridine_k := ring [n_ (Some 0); cH; cH; cH; cH; cH] [2; 1; 2; 1; 2; 1].
+
+(* p-benzoquinone: ring atoms 1..6, O = 7 on C1, O = 8 on C4 *)
+Definition quinone (os : list Z) : mol :=
+  let c0 := mkAtom 6 None 0 false (Some 0) None in
+  let o0 := mkAtom 8 None 0 false (Some 0) None in
+  let b := fun i => mkBond (znth os i 0) None in
+  mkMol [(1, c0); (2, cH); (3, cH); (4, c0); (5, cH); (6, cH); (7, o0); (8, o0)]
+        [(1, [(6, b 5); (2, b 0); (7, mkBond 2 None)]); (2, [(1, b 0); (3, b 1)]); (3, [(2, b 1); (4, b 2)]);
+         (4, [(3, b 2); (5, b 3); (8, mkBond 2 None)]); (5, [(4, b 3); (6, b 4)]); (6, [(5, b 4); (1, b 5)]);
+         (7, [(1, mkBond 2 None)]); (8, [(4, mkBond 2 None)])].
+Definition quinone_k := quinone [1; 2; 1; 1; 2; 1].
+Definition quinone_a := quinone [4; 4; 4; 4; 4; 4].
+
+Theorem kekule_rel_examples :
+  (* accepted *)
+  kekule_rel benzene_a benzene_k = true /\ kekule_rel pyrrole_a pyrrole_k = true /\ kekule_rel pyridine_a pyridine_k = true /\
+  thiele_rel benzene_k benzene_a = true /\ thiele_rel pyrrole_k pyrrole_a = true /\
+  (* rejected: two double bonds on one atom; a double bond on the pyrrole N-H; a pyridine-type N left without double bond
+     although its hydrogen count says 0 ... *)
+  kekule_rel benzene_a (ring [cH; cH; cH; cH; cH; cH] [2; 2; 1; 1; 2; 1]) = false /\
+  kekule_rel pyrrole_a (ring [nH; cH; cH; cH; cH] [2; 1; 2; 1; 1]) = false /\
+  kekule_rel (ring [n_ (Some 0); cH; cH; cH; cH; cH] [4; 4; 4; 4; 4; 4]) (ring [n_ (Some 0); cH; cH; cH; cH; cH] [1; 2; 1; 2; 1; 1]) = false /\
+  (* ... an aromatic bond left; a changed charge; a changed hydrogen count; a changed element *)
+  kekule_rel benzene_a (ring [cH; cH; cH; cH; cH; cH] [2; 1; 2; 1; 4; 4]) = false /\
+  kekule_rel benzene_a (ring [mkAtom 6 None 1 false (Some 1) None; cH; cH; cH; cH; cH] [2; 1; 2; 1; 2; 1]) = false /\
+  kekule_rel benzene_a (ring [mkAtom 6 None 0 false (Some 2) None; cH; cH; cH; cH; cH] [2; 1; 2; 1; 2; 1]) = false /\
+  kekule_rel benzene_a (ring [n_ (Some 1); cH; cH; cH; cH; cH] [2; 1; 2; 1; 2; 1]) = false /\
+  (* thiele: a triple bond cannot become aromatic, two double bonds of one atom cannot both be absorbed *)
+  thiele_rel (ring [cH; cH; cH; cH; cH; cH] [3; 1; 2; 1; 2; 1]) benzene_a = false /\
+  thiele_rel (ring [cH; cH; cH; cH; cH; cH] [2; 2; 1; 1; 2; 1]) benzene_a = false /\
+  (* quinone exclusion: p-benzoquinone must not come out with an aromatic ring *)
+  thiele_rel quinone_k quinone_k = true /\ thiele_rel quinone_k quinone_a = false.
+Proof. vm_compute. repeat split; reflexivity. Qed.
+
+Definition benzene_form : list (Z * Z * Z) := [(2, 1, 2); (3, 2, 1); (4, 3, 2); (5, 4, 1); (6, 5, 2); (1, 6, 1)].
+
+Theorem kekule_driver_examples :
+  (* __prepare_rings: pyrrole N-H goes to double_bonded (takes no double bond), pyridine N (hydrogens unknown) to pyrroles *)
+  prep_eqb (prepare_rings pyrrole_a [[1; 2; 3; 4; 5]]) [(1, [5; 2]); (2, [1; 3]); (3, [2; 4]); (4, [3; 5]); (5, [4; 1])] [] [1] = true /\
+  prep_eqb (prepare_rings pyridine_a [[1; 2; 3; 4; 5; 6]])
+           [(1, [6; 2]); (2, [1; 3]); (3, [2; 4]); (4, [3; 5]); (5, [4; 6]); (6, [5; 1])] [1] [] = true /\
+  (* an aromatic bond outside any ring is refused *)
+  prep_raises (prepare_rings (mkMol [(1, cH); (2, cH)] [(1, [(2, mkBond 4 None)]); (2, [(1, mkBond 4 None)])]) []) = true /\
+  (* the driver with the form the search returns, and the checker accepts what it produces *)
+  match kekule_driver benzene_a [[1; 2; 3; 4; 5; 6]] (fun _ _ _ => Ok (Some benzene_form)) (fun _ _ => Some 1) with
+  | Ok (g', r) => mol_eqb g' benzene_k && r && kekule_rel benzene_a g'
+  | Err _ => false
+  end = true.
+Proof. vm_compute. repeat split; reflexivity. Qed.
